@@ -167,6 +167,7 @@ static size_t hh(size_t k, size_t m) { hcalls++; return (k * 2654435761u) % m; }
 static int hcount;
 static int hvisit(const void *e, void *p) { (void)p; hcount += ((const struct helem *)e)->in ? 1 : 1000000; return 0; }
 static int hvisit_nc(void *e, void *p) { return hvisit(e, p); }
+static size_t hdirty(const struct cstl_hash *h) { size_t b, d = 0; if (h->bucket.rh.hash == NULL) return 0; for (b = 0; b < h->bucket.count; b++) d += h->bucket.at[b].cst != h->bucket.cst; return d; }
 static void hash_case(unsigned n, size_t c0, size_t c1, size_t c2)
 {
     struct cstl_hash h; unsigned i, held = 0, ops; int ab;
@@ -186,9 +187,11 @@ static void hash_case(unsigned n, size_t c0, size_t c1, size_t c2)
             if (is("C04")) { hcount = 0; cstl_hash_foreach_const(&h, hvisit, NULL); CHECK(hcount == (int)held, "foreach_const right after resize(%zu) visited %d of %u elements", steps[s], hcount, held); }
             /* keyed operations until the rehash is over: at most as many as there were buckets; each lookup exact */
             for (ops = 0; h.bucket.rh.hash != NULL && !nviol; ops++) {
-                unsigned k = (ops * 31u) % n; void *f; unsigned long c = hcalls;
+                unsigned k = (ops * 31u) % n; void *f; unsigned long c = hcalls; size_t d0 = is("C19") ? hdirty(&h) : 0, d1;
                 SHIM_CALL(ab, f = cstl_hash_find(&h, (size_t)k * 13, NULL, NULL)); evals++;
                 if (ab) { fail("find aborted mid-rehash"); break; }
+                /* the work of one keyed operation does not depend on the size of the table: at most three buckets cleaned, at least one */
+                if (is("C19")) { d1 = hdirty(&h); CHECK(d0 - d1 <= 3 && (d0 - d1 >= 1 || h.bucket.rh.hash == NULL), "one lookup while the rehash from %zu buckets is pending cleaned %zu buckets (allowed: at most 3, and at least 1 unless it completes the rehash)", old, d0 - d1); }
                 if (is("C03")) CHECK(f == (HE[k].in ? (void *)&HE[k] : NULL), "find(%u) mid-rehash (%zu -> %zu buckets, operation %u) is wrong", k, old, steps[s], ops);
                 if (is("C19")) CHECK(ops < old, "the rehash from %zu buckets is still pending after %u keyed operations", old, ops + 1);
                 (void)c;
@@ -326,8 +329,8 @@ static void run_family(int thorough, const char *only)
     }
     if (is("C08")) for (ni = 0; ni < nn && !nviol; ni++) for (a = 0; a < 5 && !nviol; a++) GUARDED(map_case(tn[ni], a, (a + 2) % 5));
     if (is("C03") || is("C04") || is("C19")) {
-        static const size_t geo[][3] = { { 16, 1024, 64 }, { 1024, 2048, 1024 }, { 7, 1031, 5 }, { 2048, 16, 4096 }, { 64, 64 * 3, 1 } }; unsigned g;
-        for (g = 0; g < 5 && !nviol; g++) { GUARDED(hash_case(3000, geo[g][0], geo[g][1], geo[g][2])); GUARDED(hash_case(4, geo[g][0], geo[g][1], geo[g][2])); GUARDED(hash_case(97, geo[g][0], geo[g][1], geo[g][2])); }
+        static const size_t geo[][3] = { { 16, 1024, 64 }, { 1024, 2048, 1024 }, { 7, 1031, 5 }, { 2048, 16, 4096 }, { 64, 64 * 3, 1 }, { 8192, 16384, 4096 }, { 16384, 64, 8192 } }; unsigned g;
+        for (g = 0; g < 7 && !nviol; g++) { GUARDED(hash_case(3000, geo[g][0], geo[g][1], geo[g][2])); GUARDED(hash_case(4, geo[g][0], geo[g][1], geo[g][2])); GUARDED(hash_case(97, geo[g][0], geo[g][1], geo[g][2])); }
     }
     if (is("C09")) { static const size_t ess[] = { 1, 3, 4, 8, 24, 64 }; unsigned e; for (e = 0; e < 6 && !nviol; e++) for (a = 0; a < 3 && !nviol; a++) { GUARDED(vector_case(ess[e], 0, a)); if (ess[e] >= 4) GUARDED(vector_case(ess[e], 1, a)); } }
     if (is("C10")) for (a = 0; a < 3 && !nviol; a++) { GUARDED(bigstring(a)); GUARDED(bigwstring(a)); }
